@@ -39,6 +39,7 @@ var AllPageSizes = []int{4096, 512, 1024, 2048, 8192, 16384, 32768, 65536}
 type World struct {
 	C       *sim.Ctx
 	S       *sim.Src
+	VS      *sim.Src // value source: row values of one INSERT batch come from a sub-source seeded by ONE choice
 	W       *sq.Worker
 	Dir     string
 	Path    string
@@ -62,7 +63,7 @@ type World struct {
 
 // New creates the database file with drawn page size / auto_vacuum / journal mode.
 func New(c *sim.Ctx, w *sq.Worker, dir string, prof Profile) *World {
-	wd := &World{C: c, S: c.Src, W: w, Dir: dir, Path: filepath.Join(dir, "db"), Conn: "w", OConn: "o", Prof: prof,
+	wd := &World{C: c, S: c.Src, VS: c.Src, W: w, Dir: dir, Path: filepath.Join(dir, "db"), Conn: "w", OConn: "o", Prof: prof,
 		Hints: map[string]interface{}{}, hasMax: map[string]bool{}, longKey: map[string]bool{}}
 	s := c.Src
 	wd.PageSz = prof.PageSizes[s.Draw(len(prof.PageSizes), "pagesize")]
@@ -301,7 +302,7 @@ func rowidAliasCol(t *sq.Table) int {
 }
 
 func (w *World) genRowid(t *sq.Table) int64 {
-	s := w.S
+	s := w.VS
 	switch s.Weighted([]int{10, 2, 2, 1}, "rowidkind") {
 	case 0:
 		base := int64(1)
@@ -323,7 +324,7 @@ func (w *World) genRowid(t *sq.Table) int64 {
 }
 
 func (w *World) genValueFor(t *sq.Table, ci int, long bool, tag int) sq.Val {
-	s := w.S
+	s := w.VS
 	c := t.Columns[ci]
 	if long && s.Chance(3, 4, "longkey") {
 		// ~100-byte keys, few distinct values: deep index trees with duplicate runs
@@ -394,6 +395,14 @@ func (w *World) InsertRows(table string, n int) {
 	sql := fmt.Sprintf("%s INTO %s(%s) VALUES (%s)", verb, gen.Quote(t.Name), strings.Join(names, ","), ph)
 	long := w.longKey[key]
 	thr := gen.Thresholds(w.PageSz)
+	// all values of this batch derive from one drawn seed: the choice sequence stays
+	// short and structural (what the minimiser works on), rows are independent of
+	// each other's draws
+	sub := sim.NewSrc(uint64(s.Draw(1<<30, "rowseed"))*0x9e3779b97f4a7c15 + 1)
+	sub.NoRec = true
+	w.VS = sub
+	defer func() { w.VS = w.S }()
+	s = sub
 	var rows [][]sq.Val
 	nextAuto := int64(1)
 	if len(t.Rowids) > 0 {
